@@ -124,7 +124,7 @@ Lemma P_declared_in_range : forall p T fl g n v,
   in_range (g_kind g) v = true.
 Proof.
   intros p T fl g n v Hgd Hgen Hin. ctx Hgd Hgen k Hg Hk. cbn [g_kind make_str].
-  pose proof (D_in_range p T k Hg Hk) as H. rewrite Forall_forall in H. exact (H (n, v) Hin).
+  pose proof (D_in_range p T k Hg Hk) as Hall. rewrite Forall_forall in Hall. exact (Hall (n, v) Hin).
 Qed.
 
 (* stale guard *)
@@ -195,8 +195,8 @@ Lemma P_parse_enum_agrees_value_map : forall p T fl g s,
 Proof.
   intros p T fl g s _ _. unfold parse_enum.
   destruct (assoc_s s (t_value_map (const_env p) g)) as [v'|]; split.
-  - intros v. split; intros H; inversion H; reflexivity.
-  - cbn. split; [intros H; exfalso; apply H; reflexivity | discriminate].
+  - intros v. split; intros Heq; inversion Heq; reflexivity.
+  - cbn. split; [intros Hne; exfalso; apply Hne; reflexivity | discriminate].
   - intros v. split; discriminate.
   - cbn. split; [reflexivity | discriminate].
 Qed.
@@ -220,13 +220,14 @@ Lemma P_is_enum : forall p T fl g x,
       (is_enum (const_env p) g x = true <-> In x (map snd (declared T p)))).
 Proof.
   intros p T fl g x Hgd Hgen. ctx Hgd Hgen k Hg Hk. cbn [g_kind make_str].
-  pose proof (is_enum_spec p T k fl Hg Hk x) as H. repeat split.
-  - apply H.
-  - apply H.
-  - intros Hx. apply (values_in p T k fl Hg Hk). apply H. exact Hx.
-  - intros Hx. apply H. apply (values_in p T k fl Hg Hk). exact Hx.
-  - intros He. rewrite <- (wrap_in_range k x H0). apply H. exact He.
-  - intros Hin. apply H. rewrite (wrap_in_range k x H0). exact Hin.
+  pose proof (is_enum_spec p T k fl Hg Hk x) as Hspec.
+  split; [exact Hspec|]. split.
+  - split.
+    + intros Hx. apply (values_in p T k fl Hg Hk). apply Hspec. exact Hx.
+    + intros Hx. apply Hspec. apply (values_in p T k fl Hg Hk). exact Hx.
+  - intros Hr. split.
+    + intros He. rewrite <- (wrap_in_range k x Hr). apply Hspec. exact He.
+    + intros Hin. apply Hspec. rewrite (wrap_in_range k x Hr). exact Hin.
 Qed.
 
 Lemma P_text_codec : forall p T fl g tgt,
@@ -253,9 +254,10 @@ Lemma P_sql_codec : forall p T fl g tgt,
         scan (const_env p) g (SBytes s) tgt = (Some ENotFound, tgt))
   /\ (forall sv, (forall s, sv <> SBytes s) -> scan (const_env p) g sv tgt = (Some EBadType, tgt)).
 Proof.
-  intros p T fl g tgt Hgd Hgen. ctx Hgd Hgen k Hg Hk. repeat split.
-  - unfold sql_value. rewrite (str_of_declared p T k fl Hg Hk n v H). reflexivity.
-  - unfold scan. rewrite (parse_enum_hit p T k fl Hg Hk n v H). reflexivity.
+  intros p T fl g tgt Hgd Hgen. ctx Hgd Hgen k Hg Hk. split; [|split].
+  - intros n v Hin. split.
+    + unfold sql_value. rewrite (str_of_declared p T k fl Hg Hk n v Hin). reflexivity.
+    + unfold scan. rewrite (parse_enum_hit p T k fl Hg Hk n v Hin). reflexivity.
   - intros s Hno. apply scan_rejects_name; assumption.
   - intros sv Hno. apply scan_rejects_type; assumption.
 Qed.
@@ -277,9 +279,10 @@ Section Json.
     /\ (forall data n v, jdec data = Some (trim_prefix n T) -> In (n, v) (declared T p) ->
           unmarshal_json (const_env p) g jdec data tgt = (None, v)).
   Proof.
-    intros p T fl g tgt Hgd Hgen. ctx Hgd Hgen k Hg Hk. repeat split.
-    - unfold marshal_json. rewrite (str_of_declared p T k fl Hg Hk n v H). reflexivity.
-    - apply (json_roundtrip p T k fl Hg Hk jenc jdec jdec_jenc n v tgt H).
+    intros p T fl g tgt Hgd Hgen. ctx Hgd Hgen k Hg Hk. split; [|split; [|split]].
+    - intros n v Hin. split.
+      + unfold marshal_json. rewrite (str_of_declared p T k fl Hg Hk n v Hin). reflexivity.
+      + apply (json_roundtrip p T k fl Hg Hk jenc jdec jdec_jenc n v tgt Hin).
     - intros data Hd. apply json_rejects_nonstring; assumption.
     - intros data s Hd Hno. apply (json_rejects_name p T k fl Hg Hk jdec data s tgt Hd Hno).
     - intros data n v Hd Hin. apply (json_accepts p T k fl Hg Hk jdec data n v tgt Hd Hin).
